@@ -35,6 +35,11 @@ func tobytes(s string) []byte { return []byte(s) }
 func frombytes(b []byte) string { return string(b) }
 func roundtrip(s string) string { b := []byte(s); return string(b) }
 func fromrune(r rune) string { return string(r) }
+func frombyte(b byte) string { return string(b) }
+func fromelem(s string, i int) string { return string(s[i]) + "|" + string(rune(s[i])) }
+func eachbyte(s string) string { r := ""; for i := 0; i < len(s); i++ { r += string(s[i]) }; return r }
+func fromint8(x int8) string { return string(rune(x)) }
+func fromu32(x uint32) string { return string(rune(x)) }
 func cat(a string, b string) []string { c := a + b; d := a; d += b; return []string{a, b, c, d} }
 func cmp(a string, b string) []bool { return []bool{a < b, a <= b, a == b, a != b, a > b, a >= b} }
 func mutcopy(s string) []string { b := []byte(s); if len(b) > 0 { b[0] = b[0] + 1 }; return []string{s, string(b)} }
@@ -249,6 +254,37 @@ func (w *c13Worker) check(c c13Case) string {
 		if e != "" || v.String() != string(r) {
 			return fail(fmt.Sprintf("string(rune(%d))", c.I), string(r), e+v.String())
 		}
+	case "byteconv":
+		// string(b) of a byte is the UTF-8 encoding of the code point b, not the byte itself
+		b := byte(c.I)
+		v, e := w.call("frombyte", goatlang.Byte(b))
+		if e != "" || v.String() != string(rune(b)) {
+			return fail(fmt.Sprintf("string(byte(%d))", b), string(rune(b)), e+v.String())
+		}
+		v, e = w.call("fromint8", goatlang.Int8(int8(b)))
+		if e != "" || v.String() != string(rune(int8(b))) {
+			return fail(fmt.Sprintf("string(rune(int8(%d)))", int8(b)), string(rune(int8(b))), e+v.String())
+		}
+		v, e = w.call("fromu32", goatlang.Uint32(uint32(c.I)*0x101))
+		if e != "" || v.String() != string(rune(uint32(c.I)*0x101)) {
+			return fail(fmt.Sprintf("string(rune(uint32(%d)))", uint32(c.I)*0x101), string(rune(uint32(c.I)*0x101)), e+v.String())
+		}
+		if len(s) > 0 {
+			i := c.I % len(s)
+			v, e = w.call("fromelem", S(s), I(i))
+			want := string(rune(s[i])) + "|" + string(rune(s[i]))
+			if e != "" || v.String() != want {
+				return fail(fmt.Sprintf("string(s[%d]) | string(rune(s[%d]))", i, i), want, e+v.String())
+			}
+			want = ""
+			for k := 0; k < len(s); k++ {
+				want += string(rune(s[k]))
+			}
+			v, e = w.call("eachbyte", S(s))
+			if e != "" || v.String() != want {
+				return fail("concatenation of string(s[i]) over all i", want, e+v.String())
+			}
+		}
 	case "concat":
 		v, e := w.call("cat", S(s), S(t))
 		got := sliceToStrings(v)
@@ -420,6 +456,7 @@ func c13Gen(seed int64, idx int) []c13Case {
 	}
 	cs = append(cs, c13Case{Op: "rune", I: core.Pick(rng, []int{0, 65, 0xe9, 0x20ac, 0x1d11e, 0xd800, 0x10ffff, 0x110000, -1, 127, 128, 0xfffd})})
 	cs = append(cs, c13Case{Op: "rune", I: rng.Intn(0x11000)})
+	cs = append(cs, c13Case{Op: "byteconv", I: rng.Intn(256), S: []byte(s)}, c13Case{Op: "byteconv", I: 128 + rng.Intn(128), S: []byte(s)})
 	for k := 0; k < 3; k++ {
 		cs = append(cs, c13Case{Op: "literal", Lit: c13RandLiteral(rng)}, c13Case{Op: "charlit", Lit: c13RandCharLit(rng)})
 	}
@@ -433,7 +470,7 @@ func c13Gen(seed int64, idx int) []c13Case {
 }
 
 func runC13(r *core.Run) {
-	r.SetRule("strings over ASCII, 2/3/4-byte runes, combining marks and invalid UTF-8 (lone continuation bytes, truncated sequences, surrogates, NUL) reach script functions as host-supplied arguments: len, s[i] (value, type uint8 and byte arithmetic) for every index incl. one past each end, s[i:j] for every pair incl. out-of-range ones (must be errors), the three range forms (byte offsets, runes, U+FFFD), []byte(s), string([]byte), string(rune) incl. invalid code points, a+b and += with the operands checked afterwards, the six comparisons; plus generated interpreted, raw and character literal spellings (all escape forms) evaluated by Eval. non-trivial = the operation returned a value (not an expected error); distinct by (operation, operands)")
+	r.SetRule("strings over ASCII, 2/3/4-byte runes, combining marks and invalid UTF-8 (lone continuation bytes, truncated sequences, surrogates, NUL) reach script functions as host-supplied arguments: len, s[i] (value, type uint8 and byte arithmetic) for every index incl. one past each end, s[i:j] for every pair incl. out-of-range ones (must be errors), the three range forms (byte offsets, runes, U+FFFD), []byte(s), string([]byte), string(rune) incl. invalid code points, string(b) for byte / s[i] / int8 / uint32 operands (the code point's encoding, not the byte), a+b and += with the operands checked afterwards, the six comparisons; plus generated interpreted, raw and character literal spellings (all escape forms) evaluated by Eval. non-trivial = the operation returned a value (not an expected error); distinct by (operation, operands)")
 	r.Assume("native Go string operations and strconv.Unquote/UnquoteChar are the specification")
 	n := r.N(10000, 200000)
 	core.Parallel((n+49)/50, func(chunk int) {
